@@ -18,6 +18,10 @@ StrProp == IF Machine = "quotes" THEN QuoteProp(TR.s, TR.t) /\ TagsUntouched(TR.
            ELSE EllipsisProp(TR.s, TR.t) /\ OnlyThreeDotRuns(TR.s, TR.t) /\ TR.t2 = TR.t
 DocProp == /\ TR.len_off = TR.len_on /\ TR.nl_same
            /\ \A i \in 1..Len(TR.diffs) : Family(TR.diffs[i].c, TR.diffs[i].d) /\ ~TR.diffs[i].prot
+\* kind "tree" (C09): [id, kind, a, b]  preorder node strings of the normalised trees of the (ellipses off, ellipses on) outputs, text
+\* nodes passed through the inverse mapping (ellipsis -> three dots, whitespace touching a dot run erased, runs collapsed):
+\* structure, literal spans and all other text must be identical.
+TreeProp == TR.a = TR.b
 TraceReport == Done => PrintT(ToJson(<<"R", TR.id, IF TR.kind = "str" THEN out = TR.t ELSE TRUE,
-                                       IF TR.kind = "str" THEN StrProp ELSE DocProp>>))
+                                       IF TR.kind = "str" THEN StrProp ELSE IF TR.kind = "doc" THEN DocProp ELSE TreeProp>>))
 =============================================================================
